@@ -931,15 +931,106 @@ theorem MainSameArr.put {d : Dir} {p : Array Pos} {i : Nat} {b v : Pos} (h : p[i
     exact ⟨v, put_get?_self _ _ (lt_of_get? h), hv⟩
   · exact ⟨c, by rw [put_get?_ne _ _ e]; exact hk, MainSame.refl d c⟩
 
-theorem reverseCursive_main (d : Dir) (np : Nat) :
-    ∀ (fuel : Nat) (p q : Array Pos) (i dep : Nat),
-      reverseCursiveMinorOffset fuel p i d np = .ok (q, dep) → MainSameArr d p q ∧ dep ≤ nz p + 1 := by
+/-- `reverse_cursive_minor_offset` as it was before the fix (and as it is in HarfBuzz): the recursive
+    formulation, kept as the specification of the two loops.  Result: positions and recursion depth. -/
+def reverseCursiveRec (fuel : Nat) (p : Array Pos) (i : Nat) (d : Dir) (newParent : Nat) :
+    M (Array Pos × Nat) :=
+  match fuel with
+  | 0 => .error .fuel
+  | fuel + 1 =>
+    match get p i with
+    | .error e => .error e
+    | .ok pi =>
+      if pi.chain = 0 ∨ pi.atype &&& ATTACH_CURSIVE = 0 then .ok (p, 1)
+      else
+        let p1 := put p i { pi with chain := 0 }
+        let jz : Int := (i : Int) + pi.chain
+        if jz < 0 then .error .oob
+        else
+          let j := jz.toNat
+          if j = newParent then .ok (p1, 1)
+          else
+            match reverseCursiveRec fuel p1 j d newParent with
+            | .error e => .error e
+            | .ok (p2, dep) =>
+              match get p2 i, get p2 j with
+              | .error e, _ => .error e
+              | _, .error e => .error e
+              | .ok qi, .ok qj =>
+                let qj := if d.isHorizontal then { qj with yo := - qi.yo } else { qj with xo := - qi.xo }
+                .ok (put p2 j { qj with chain := wrap16 (- pi.chain), atype := pi.atype }, dep + 1)
+
+
+/-- the two loops over the work list compute exactly what the recursion computed — on every input (cycles,
+    out-of-range links, foreign attach types), including which error is raised and the length of the walk -/
+theorem reverseCursive_eq_aux (d : Dir) (np : Nat) :
+    ∀ (fuel : Nat) (p : Array Pos) (i : Nat) (work : List Frame),
+      (match reverseDescend np fuel p i work with
+        | .error e => (.error e : M (Array Pos × Nat))
+        | .ok (p1, w) =>
+          match reverseUnwind d p1 w with
+          | .error e => .error e
+          | .ok q => .ok (q, w.length + 1)) =
+      (match reverseCursiveRec fuel p i d np with
+        | .error e => .error e
+        | .ok (p2, dep) =>
+          match reverseUnwind d p2 work with
+          | .error e => .error e
+          | .ok q => .ok (q, work.length + dep)) := by
   intro fuel
   induction fuel with
-  | zero => intro p q i dep h; simp [reverseCursiveMinorOffset] at h
+  | zero => intro p i work; rfl
+  | succ fuel ih =>
+    intro p i work
+    unfold reverseDescend reverseCursiveRec
+    cases hg : get p i with
+    | error e => rfl
+    | ok pi =>
+      simp only
+      by_cases hstop : pi.chain = 0 ∨ pi.atype &&& ATTACH_CURSIVE = 0
+      · simp only [hstop, if_true]
+      · simp only [hstop, if_false]
+        by_cases hneg : (i : Int) + pi.chain < 0
+        · simp only [hneg, if_true]
+        · simp only [hneg, if_false]
+          by_cases hnp : ((i : Int) + pi.chain).toNat = np
+          · simp only [hnp, if_true]
+          · simp only [hnp, if_false]
+            rw [ih]
+            cases hr : reverseCursiveRec fuel (put p i { pi with chain := 0 }) ((i : Int) + pi.chain).toNat d np with
+            | error e => rfl
+            | ok r =>
+              obtain ⟨p2, dep⟩ := r
+              simp only [reverseUnwind]
+              cases hgi : get p2 i with
+              | error e => rfl
+              | ok qi =>
+                cases hgj : get p2 ((i : Int) + pi.chain).toNat with
+                | error e => rfl
+                | ok qj =>
+                  simp only [List.length_cons]
+                  cases reverseUnwind d _ work with
+                  | error e => rfl
+                  | ok q => simp only [Except.ok.injEq, Prod.mk.injEq, true_and]; omega
+
+theorem reverseCursive_eq (fuel : Nat) (p : Array Pos) (i : Nat) (d : Dir) (np : Nat) :
+    reverseCursiveMinorOffset fuel p i d np = reverseCursiveRec fuel p i d np := by
+  have h := reverseCursive_eq_aux d np fuel p i []
+  unfold reverseCursiveMinorOffset
+  refine Eq.trans h ?_
+  cases reverseCursiveRec fuel p i d np with
+  | error e => rfl
+  | ok r => obtain ⟨p2, dep⟩ := r; simp [reverseUnwind]
+
+theorem reverseCursive_main (d : Dir) (np : Nat) :
+    ∀ (fuel : Nat) (p q : Array Pos) (i dep : Nat),
+      reverseCursiveRec fuel p i d np = .ok (q, dep) → MainSameArr d p q ∧ dep ≤ nz p + 1 := by
+  intro fuel
+  induction fuel with
+  | zero => intro p q i dep h; simp [reverseCursiveRec] at h
   | succ fuel ih =>
     intro p q i dep h
-    unfold reverseCursiveMinorOffset at h
+    unfold reverseCursiveRec at h
     split at h
     · cases h
     · rename_i pi hg
@@ -982,6 +1073,7 @@ theorem reverseCursive_main (d : Dir) (np : Nat) :
 theorem cursiveAttach_main {p q : Array Pos} {c pa dep : Nat} {d : Dir} {xOff yOff : Int}
     (h : cursiveAttach p c pa d xOff yOff = .ok (q, dep)) : MainSameArr d p q := by
   unfold cursiveAttach at h
+  rw [reverseCursive_eq] at h
   split at h
   · cases h
   · rename_i p2 dep' hrev
@@ -1252,7 +1344,7 @@ theorem reverse_depth_chain (d : Dir) (np : Nat) :
     ∀ (m i fuel : Nat) (p : Array Pos), i + m + 1 = p.size → m < fuel → (np ≤ i ∨ p.size ≤ np) →
       (∀ b : Pos, p[p.size - 1]? = some b → b.chain = 0) →
       (∀ (k : Nat) (b : Pos), i ≤ k → k + 1 < p.size → p[k]? = some b → b.chain = 1 ∧ b.atype = ATTACH_CURSIVE) →
-      ∃ q, reverseCursiveMinorOffset fuel p i d np = .ok (q, m + 1) := by
+      ∃ q, reverseCursiveRec fuel p i d np = .ok (q, m + 1) := by
   intro m
   induction m with
   | zero =>
@@ -1262,7 +1354,7 @@ theorem reverse_depth_chain (d : Dir) (np : Nat) :
     have hpi : p[i]? = some p[i] := by simp [hi]
     have : p.size - 1 = i := by omega
     have hc := hlast p[i] (by rw [this]; exact hpi)
-    unfold reverseCursiveMinorOffset
+    unfold reverseCursiveRec
     rw [get_ok_iff.mpr hpi]
     simp [hc]
   | succ m ih =>
@@ -1281,7 +1373,7 @@ theorem reverse_depth_chain (d : Dir) (np : Nat) :
     have hs2 := (reverseCursive_main d np _ _ _ _ _ hrec).1.1
     have hi2 : i < p2.size := by rw [hs2, hsz1]; exact hi
     have hj2 : i + 1 < p2.size := by rw [hs2, hsz1]; omega
-    unfold reverseCursiveMinorOffset
+    unfold reverseCursiveRec
     rw [get_ok_iff.mpr hpi]
     have h1 : ¬ (pi.chain = 0 ∨ pi.atype &&& ATTACH_CURSIVE = 0) := by
       rw [hc, hty]; decide
@@ -1301,7 +1393,7 @@ theorem fwdChain_get? (n k : Nat) (h : k < n) :
   simp [fwdChain, h]
 
 theorem fwdChain_reverse_depth (n : Nat) (hn : 2 ≤ n) (d : Dir) :
-    ∃ q, reverseCursiveMinorOffset (fuelFor (fwdChain n)) (fwdChain n) 1 d 0 = .ok (q, n - 1) := by
+    ∃ q, reverseCursiveRec (fuelFor (fwdChain n)) (fwdChain n) 1 d 0 = .ok (q, n - 1) := by
   have hsz : (fwdChain n).size = n := by simp [fwdChain]
   have := reverse_depth_chain d 0 (n - 2) 1 (fuelFor (fwdChain n)) (fwdChain n) (by omega)
     (by unfold fuelFor; omega) (Or.inl (by omega))
@@ -1413,13 +1505,13 @@ theorem markArrayApply_chainOK {p q : Array Pos} {idx gp : Nat} {mx my bx byy : 
 
 theorem reverseCursive_chainOK (d : Dir) (np : Nat) :
     ∀ (fuel : Nat) (p q : Array Pos) (i dep : Nat),
-      reverseCursiveMinorOffset fuel p i d np = .ok (q, dep) → ChainOK p → ChainOK q := by
+      reverseCursiveRec fuel p i d np = .ok (q, dep) → ChainOK p → ChainOK q := by
   intro fuel
   induction fuel with
-  | zero => intro p q i dep h; simp [reverseCursiveMinorOffset] at h
+  | zero => intro p q i dep h; simp [reverseCursiveRec] at h
   | succ fuel ih =>
     intro p q i dep h hp
-    unfold reverseCursiveMinorOffset at h
+    unfold reverseCursiveRec at h
     split at h
     · cases h
     · rename_i pi hg
@@ -1490,6 +1582,7 @@ theorem cursiveAttach_chainOK {p q : Array Pos} {c pa dep : Nat} {d : Dir} {xOff
     (h : cursiveAttach p c pa d xOff yOff = .ok (q, dep)) (hp : ChainOK p)
     (hd : ((pa : Int) - (c : Int)).natAbs ≤ CHAIN_MAX) : ChainOK q := by
   unfold cursiveAttach at h
+  rw [reverseCursive_eq] at h
   split at h
   · cases h
   · rename_i p2 dep' hrev
